@@ -1,14 +1,63 @@
 package main
 
-// runThorough adds the thorough-tier work for a property (see thorough rules
-// registered per property). Filled in per property.
+import (
+	"encoding/json"
+	"fmt"
+	"io/fs"
+	"os"
+	"os/exec"
+	"path/filepath"
+	"regexp"
+	"sort"
+	"strings"
+)
+
+// Thorough tier = the quick rules on /repo's working tree (that alone decides
+// the verdict) + measurements of the analyser itself:
+//
+//   - selftest/mutants.json: semantic mutants (regex rewrites located by
+//     content, and seeded patches kept under /verif/seeded). Each is materialised
+//     in a scratch copy of the working tree under os.TempDir(), analysed with the
+//     same rule, and must be reported; the copy is removed at once.
+//   - selftest/prefix_expect.json: the findings the rule must report on the
+//     pinned pre-fix commit of /repo (the root commit), when git history is there.
+//   - C18: the rule repeated under GOARCH=386.
+//
+// None of this votes: results go into evidence (mutants_total / killed /
+// survivors / not_applicable). A surviving mutant is listed, not a violation.
+
+type mutant struct {
+	ID         string `json:"id"`
+	Property   string `json:"property"`
+	Type       string `json:"type"` // "regex" or "patch"
+	File       string `json:"file,omitempty"`
+	Find       string `json:"find,omitempty"`
+	Replace    string `json:"replace,omitempty"`
+	Patch      string `json:"patch,omitempty"` // path relative to /verif
+	Edits      []struct {
+		File    string `json:"file"`
+		Find    string `json:"find"`
+		Replace string `json:"replace"`
+	} `json:"edits,omitempty"`
+	ExpectRule string `json:"expect_rule,omitempty"`
+	Note       string `json:"note,omitempty"`
+}
+
+type prefixExpect struct {
+	Property  string `json:"property"`
+	Rule      string `json:"rule"`
+	Construct string `json:"construct"`
+	Finding   string `json:"finding"`
+}
+
+var thoroughProps = map[string]func(P *Prog, r *Result, repo string){}
+
 func runThorough(P *Prog, r *Result, id, repo string) {
 	if f := thoroughProps[id]; f != nil {
 		runGuarded(P, r, func(P *Prog, r *Result) { f(P, r, repo) })
 	}
+	runGuarded(P, r, func(P *Prog, r *Result) { selfTest(r, id, repo) })
 }
-
-var thoroughProps = map[string]func(P *Prog, r *Result, repo string){}
 
 func init() {
 	// C18 thorough: the same rule under GOARCH=386, where int is 32 bits wide
@@ -32,4 +81,269 @@ func init() {
 		r.Broken = append(r.Broken, sub.Broken...)
 		r.info("thorough: rule repeated with GOARCH=386 (%d additional obligations)", len(sub.Obls))
 	}
+}
+
+func verifDir() string {
+	if d := os.Getenv("ZOGCHECK_VERIF"); d != "" {
+		return d
+	}
+	exe, err := os.Executable()
+	if err == nil {
+		d := filepath.Dir(filepath.Dir(exe))
+		if _, err := os.Stat(filepath.Join(d, "selftest")); err == nil {
+			return d
+		}
+	}
+	return "/verif"
+}
+
+// copyTree copies the working tree (no .git, docs, assets) into dst.
+func copyTree(src, dst string) error {
+	return filepath.WalkDir(src, func(path string, d fs.DirEntry, err error) error {
+		if err != nil {
+			return err
+		}
+		rel, _ := filepath.Rel(src, path)
+		if rel == "." {
+			return os.MkdirAll(dst, 0o755)
+		}
+		top := strings.Split(rel, string(filepath.Separator))[0]
+		if top == ".git" || top == "docs" || top == "assets" {
+			if d.IsDir() {
+				return filepath.SkipDir
+			}
+			return nil
+		}
+		if d.IsDir() {
+			return os.MkdirAll(filepath.Join(dst, rel), 0o755)
+		}
+		if !d.Type().IsRegular() {
+			return nil
+		}
+		b, err := os.ReadFile(path)
+		if err != nil {
+			return err
+		}
+		return os.WriteFile(filepath.Join(dst, rel), b, 0o644)
+	})
+}
+
+// analyse a scratch tree with the rule of one property; returns the non-discharged obligations.
+func analyseScratch(dir, prop string) ([]Obligation, []string, error) {
+	P2, err := Load(dir, "", false)
+	if err != nil {
+		return nil, nil, err
+	}
+	if err := P2.discoverRoles(); err != nil {
+		return nil, []string{err.Error()}, nil
+	}
+	sub := NewResult(prop, "thorough")
+	runGuarded(P2, sub, props[prop])
+	defer func() {
+		// the alias table is keyed by function: drop this program's entries so it can be collected
+		for _, fn := range P2.Funcs {
+			delete(closureAlias, fn)
+		}
+	}()
+	var out []Obligation
+	for _, o := range sub.Obls {
+		if o.Status != Discharged {
+			out = append(out, o)
+		}
+	}
+	// vacuity floors also count as detection (the rule lost its instances)
+	var broken []string
+	broken = append(broken, sub.Broken...)
+	for rule, fl := range sub.Floors {
+		if sub.Instances[rule] < fl {
+			broken = append(broken, fmt.Sprintf("vacuous: %s matched %d < %d", rule, sub.Instances[rule], fl))
+		}
+	}
+	return out, broken, nil
+}
+
+func selfTest(r *Result, prop, repo string) {
+	vd := verifDir()
+	// ---------- mutants ----------
+	var muts []mutant
+	if b, err := os.ReadFile(filepath.Join(vd, "selftest", "mutants.json")); err == nil {
+		if err := json.Unmarshal(b, &muts); err != nil {
+			r.info("selftest/mutants.json unreadable: %v", err)
+		}
+	}
+	total, killed, na := 0, 0, 0
+	var survivors, details []string
+	for _, m := range muts {
+		if m.Property != prop {
+			continue
+		}
+		total++
+		tmp, err := os.MkdirTemp("", "zogmut-")
+		if err != nil {
+			r.info("mutant %s: cannot create scratch dir: %v", m.ID, err)
+			na++
+			continue
+		}
+		func() {
+			defer os.RemoveAll(tmp)
+			if err := copyTree(repo, tmp); err != nil {
+				na++
+				details = append(details, m.ID+": not-applicable (copy failed: "+err.Error()+")")
+				return
+			}
+			applied := false
+			switch m.Type {
+			case "regex":
+				type ed struct{ File, Find, Replace string }
+				eds := []ed{}
+				if m.File != "" {
+					eds = append(eds, ed{m.File, m.Find, m.Replace})
+				}
+				for _, e := range m.Edits {
+					eds = append(eds, ed{e.File, e.Find, e.Replace})
+				}
+				applied = len(eds) > 0
+				for _, e := range eds {
+					p := filepath.Join(tmp, e.File)
+					b, err := os.ReadFile(p)
+					okE := false
+					if err == nil {
+						re, rerr := regexp.Compile(e.Find)
+						if rerr == nil {
+							// only the first match is rewritten
+							loc := re.FindIndex(b)
+							if loc != nil {
+								repl := re.ReplaceAll(b[loc[0]:loc[1]], []byte(e.Replace))
+								nb := append(append(append([]byte{}, b[:loc[0]]...), repl...), b[loc[1]:]...)
+								if string(nb) != string(b) {
+									okE = os.WriteFile(p, nb, 0o644) == nil
+								}
+							}
+						}
+					}
+					if !okE {
+						applied = false
+					}
+				}
+			case "patch":
+				cmd := exec.Command("patch", "-p1", "-s", "-f", "-i", filepath.Join(vd, m.Patch))
+				cmd.Dir = tmp
+				if out, err := cmd.CombinedOutput(); err == nil {
+					applied = true
+				} else {
+					_ = out
+				}
+			}
+			if !applied {
+				na++
+				details = append(details, m.ID+": not-applicable (the mutation no longer applies to this tree)")
+				return
+			}
+			obls, broken, err := analyseScratch(tmp, prop)
+			if err != nil {
+				// a mutant that no longer type-checks is not a useful mutant
+				na++
+				details = append(details, m.ID+": not-applicable (mutated tree does not load: "+firstLine(err.Error())+")")
+				return
+			}
+			hit := ""
+			for _, o := range obls {
+				if m.ExpectRule == "" || strings.Contains(o.Rule, m.ExpectRule) {
+					hit = o.Rule + " " + o.Construct
+					break
+				}
+			}
+			if hit == "" && len(broken) > 0 && m.ExpectRule == "" {
+				hit = "broken-check: " + broken[0]
+			}
+			if hit != "" {
+				killed++
+				details = append(details, m.ID+": reported by "+hit)
+			} else {
+				survivors = append(survivors, m.ID)
+				other := ""
+				if len(obls) > 0 {
+					other = " (other reports: " + obls[0].Rule + " " + obls[0].Construct + ")"
+				}
+				details = append(details, m.ID+": SURVIVED"+other+" — "+m.Note)
+			}
+		}()
+	}
+	sort.Strings(details)
+	r.Extra["selftest_mutants_total"] = total
+	r.Extra["selftest_mutants_reported"] = killed
+	r.Extra["selftest_mutants_not_applicable"] = na
+	r.Extra["selftest_mutants_survivors"] = survivors
+	r.Extra["selftest_mutants_detail"] = details
+	fmt.Printf("selftest %s: %d mutant(s): %d reported, %d survived, %d not applicable\n", prop, total, killed, len(survivors), na)
+	for _, s := range survivors {
+		fmt.Printf("selftest %s: SURVIVOR %s (measurement only; does not affect the verdict)\n", prop, s)
+	}
+
+	// ---------- pre-fix regression ----------
+	var exps []prefixExpect
+	if b, err := os.ReadFile(filepath.Join(vd, "selftest", "prefix_expect.json")); err == nil {
+		json.Unmarshal(b, &exps)
+	}
+	var mine []prefixExpect
+	for _, e := range exps {
+		if e.Property == prop {
+			mine = append(mine, e)
+		}
+	}
+	if len(mine) == 0 {
+		return
+	}
+	rootOut, err := exec.Command("git", "-C", repo, "rev-list", "--max-parents=0", "HEAD").Output()
+	if err != nil || strings.TrimSpace(string(rootOut)) == "" {
+		r.info("pre-fix regression: skipped (no git history at %s)", repo)
+		r.Extra["selftest_prefix"] = "skipped: no git history"
+		return
+	}
+	root := strings.Fields(string(rootOut))[0]
+	tmp, err := os.MkdirTemp("", "zogpre-")
+	if err != nil {
+		return
+	}
+	defer os.RemoveAll(tmp)
+	// materialise the root commit without touching /repo's worktree list
+	arch := exec.Command("sh", "-c", fmt.Sprintf("git -C %q archive %s | tar -x -C %q", repo, root, tmp))
+	if out, err := arch.CombinedOutput(); err != nil {
+		r.info("pre-fix regression: skipped (git archive failed: %s)", firstLine(string(out)))
+		r.Extra["selftest_prefix"] = "skipped: git archive failed"
+		return
+	}
+	os.RemoveAll(filepath.Join(tmp, "docs"))
+	obls, _, err := analyseScratch(tmp, prop)
+	if err != nil {
+		r.info("pre-fix regression: pre-fix tree does not load: %s", firstLine(err.Error()))
+		return
+	}
+	have := map[string]bool{}
+	for _, o := range obls {
+		have[o.Rule+" "+o.Construct] = true
+	}
+	found, missing := 0, []string{}
+	for _, e := range mine {
+		if have[e.Rule+" "+e.Construct] {
+			found++
+		} else {
+			missing = append(missing, e.Finding+": "+e.Rule+" "+e.Construct)
+		}
+	}
+	r.Extra["selftest_prefix_commit"] = root[:12]
+	r.Extra["selftest_prefix_expected"] = len(mine)
+	r.Extra["selftest_prefix_reported"] = found
+	r.Extra["selftest_prefix_missing"] = missing
+	fmt.Printf("selftest %s: pre-fix tree %s: %d/%d recorded defects reported\n", prop, root[:12], found, len(mine))
+	for _, m := range missing {
+		fmt.Printf("selftest %s: MISSING on pre-fix tree: %s (measurement only)\n", prop, m)
+	}
+}
+
+func firstLine(s string) string {
+	if i := strings.IndexByte(s, '\n'); i >= 0 {
+		return s[:i]
+	}
+	return s
 }
